@@ -215,6 +215,12 @@ func runC05(ctx *harness.Ctx) {
 		ctx.Sample(map[string]any{"leg": "generated", "input": q(trunc(c.Text, 300))})
 		one(t, "generated", e, c.Text)
 	})
+	ctx.Rapid("generated-relaxed", ctx.Pick(5000, 100000), func(t *rapid.T) {
+		c := drawGenRelaxed(t, "", drawDepth(t))
+		es := entriesForKind(c.S.Kind)
+		e := es[rapid.IntRange(0, len(es)-1).Draw(t, "entry")]
+		one(t, "generated-relaxed", e, c.Text)
+	})
 	ctx.Rapid("generated-list", ctx.Pick(1000, 20000), func(t *rapid.T) {
 		n := rapid.IntRange(2, 3).Draw(t, "n")
 		var parts []string
